@@ -71,3 +71,5 @@ vmod!(c07);
 vmod!(c18);
 #[cfg(descriptive_gate)]
 vmod!(c19);
+#[cfg(descriptive_gate)]
+vmod!(c13);
